@@ -59,6 +59,9 @@ func (b *Bus) Name(addr map[wallet.BackendID]wire.Address, name string) {
 	b.mu.Unlock()
 }
 
+// NameOf returns the logical name of an address ("?" if unknown).
+func (b *Bus) NameOf(addr map[wallet.BackendID]wire.Address) string { return b.nameOf(addr) }
+
 func (b *Bus) nameOf(addr map[wallet.BackendID]wire.Address) string {
 	b.mu.Lock()
 	defer b.mu.Unlock()
